@@ -1794,7 +1794,7 @@ class CanMatrix(object):
 
     frames_dict_name = attr.ib(factory=dict)  # type: typing.MutableSequence[Frame]
     frames_dict_id = attr.ib(factory=dict)  # type: typing.MutableSequence[Frame]
-    _frames_dict_id_extend = {}
+    _frames_dict_id_extend = attr.ib(factory=dict, init=False, repr=False)  # type: typing.MutableMapping[str, Frame]
     signal_defines = attr.ib(factory=dict)  # type: typing.MutableMapping[str, Define]
     frame_defines = attr.ib(factory=dict)  # type: typing.MutableMapping[str, Define]
     global_defines = attr.ib(factory=dict)  # type: typing.MutableMapping[str, Define]
@@ -1989,7 +1989,7 @@ class CanMatrix(object):
         hash_name = f"{arbitration_id.id}_{arbitration_id.extended}"
         
         frame = self._frames_dict_id_extend.get(hash_name, None)
-        if frame is not None:
+        if frame is not None and frame.arbitration_id == arbitration_id:
             return frame
         for frame in self.frames:
             if frame.arbitration_id == arbitration_id:
@@ -2263,6 +2263,7 @@ class CanMatrix(object):
         frame = frame_or_name if isinstance(frame_or_name, Frame) else self.frame_by_name(frame_or_name)
         if frame:
             self.frames.remove(frame)
+            self._frames_dict_id_extend = {}
 
     def rename_signal(self, signal_or_name, new_name):  # type: (typing.Union[Signal, str], str) -> None
         """Rename Signal.
